@@ -130,6 +130,7 @@ func runC15(r *mon.Run) {
 	})
 
 	// --- the suites ----------------------------------------------------------------------------------
+	r.Require("c15:layout:shared-buffer")
 	r.Each("c15/suites", r.N(2500, 100000), func(w *mon.W, i int) {
 		rng := w.Rng
 		dl := []int{1, 2, 16, 43, 254, 255, 256, 257, 1000, 70000}[i%10]
@@ -151,8 +152,20 @@ func runC15(r *mon.Run) {
 		if ml == 0 {
 			w.Class("c15:msglen=0")
 		}
+		// Hostile memory layout (odd cases): tag and message are sub-slices of ONE
+		// caller buffer, each with spare capacity running into what follows, the
+		// whole followed by canary bytes.  A callee that appends to an input slice
+		// writes into its neighbour; the result must not depend on the layout and
+		// no byte of the buffer may change.
+		var whole, wholeKeep []byte
+		if i%2 == 1 {
+			whole = append(append(append([]byte{}, dst...), msg...), bytes.Repeat([]byte{0xa5}, 48)...)
+			dst, msg = whole[:dl], whole[dl:dl+ml]
+			wholeKeep = append([]byte{}, whole...)
+			w.Class("c15:layout:shared-buffer")
+		}
 		keepD, keepM := append([]byte{}, dst...), append([]byte{}, msg...)
-		w.Case(true, []byte("suite"), dst, msg)
+		w.Case(true, []byte("suite"), dst, msg, []byte{byte(i % 2)})
 		if i < 3 {
 			w.Sample(map[string]any{"op": "Secp256k1_XMD_SHA256_SSWU_RO/NU", "dst_len": dl, "msg_len": ml})
 		}
@@ -185,7 +198,10 @@ func runC15(r *mon.Run) {
 			w.Fail("c15/RO:pure", "the RO suite returned two different points for the same input")
 		}
 		if !bytes.Equal(dst, keepD) || !bytes.Equal(msg, keepM) {
-			w.Fail("c15:src", "a suite modified its inputs")
+			w.Fail("c15:src", "a suite modified its inputs", "dst", keepD, "msg", keepM)
+		}
+		if whole != nil && !bytes.Equal(whole, wholeKeep) {
+			w.Fail("c15:src:shared-buffer", fmt.Sprintf("a suite wrote into the caller's buffer outside/inside its inputs (tag and message passed as sub-slices of one buffer): before %x, after %x", wholeKeep, whole), "dst_len", dl, "msg_len", ml)
 		}
 		if i%20 == 0 {
 			w.Class("c15:dst-empty")
